@@ -339,9 +339,9 @@ func (lf *listFlow) listsOfElement(e ssa.Value, seen map[ssa.Value]bool) (map[in
 }
 
 type assertSite struct {
-	fn      *ssa.Function
-	ta      *ssa.TypeAssert
-	lists   map[int]bool
+	fn       *ssa.Function
+	ta       *ssa.TypeAssert
+	lists    map[int]bool
 	resolved bool
 }
 
